@@ -8,6 +8,7 @@ fn main() {
         "C01" => wire_eng::c01(&args),
         "C02" => wire_eng::c02(&args),
         "C03" => wire_eng::c03(&args),
+        "C12" => wire_eng::c12(&args),
         p => {
             eprintln!("unknown property {}", p);
             std::process::exit(2);
